@@ -2,7 +2,7 @@
    Property theorems only; proofs in proofs/Graph*.v (see design.d/C09.md). *)
 From Coq Require Import List NArith Bool Relations.
 From SV Require Import lib.Bytes lib.Closure model.Graph model.GraphDump model.GraphInv model.GraphTree model.GraphTreeInv
-  gen.GenGraph proofs.GraphNodes proofs.GraphProofs proofs.GraphTables proofs.GraphTrans proofs.GraphTreeSim.
+  gen.GenGraph proofs.GraphNodes proofs.GraphProofs proofs.GraphTables proofs.GraphTrans proofs.GraphTreeSim proofs.GraphTreeOps.
 Import ListNotations.
 Open Scope N_scope.
 
@@ -261,6 +261,36 @@ Proof. exact no_tree_preserved. Qed.
 Theorem C09_tree_free_runs :
   forall cap ops, run_ops_t (map OpBase ops) (init_st cap) = run_ops ops (init_st cap).
 Proof. intros cap ops. apply run_ops_t_base_eq. vm_compute. reflexivity. Qed.
+
+(* The invariant for the alphabet with static trees (15 transaction kinds: the 14 base kinds with
+   the tree-aware declaration functions and the delete_detached pre-step, plus register_static_tree):
+   inv_b is preserved by every operation from any state within the hold protocol, the core
+   invariant unconditionally, the full invariant (I4, I5c) within the build-loop protocol. *)
+Theorem C09_tree_inv_preserved :
+  forall s o, inv_b s = true -> protocol_hold_t_b s o = true -> inv_b (apply_op_t s o) = true.
+Proof. exact inv_t_preserved. Qed.
+
+Theorem C09_tree_core_inv_preserved :
+  forall s o, inv_core_b s = true -> inv_core_b (apply_op_t s o) = true.
+Proof. exact inv_core_t_preserved. Qed.
+
+Theorem C09_tree_reachable_inv_core :
+  forall cap ops, inv_core_b (run_ops_t ops (init_st cap)) = true.
+Proof. exact reachable_inv_core_t. Qed.
+
+Theorem C09_tree_every_prefix :
+  forall cap ops, protocol_run_t_b (init_st cap) ops = true ->
+                  all_prefixes_ok_t inv_b (init_st cap) ops = true.
+Proof. exact reachable_inv_t_prefixes. Qed.
+
+Theorem C09_tree_full_inv_preserved :
+  forall s o, inv_full_b s = true -> protocol_ok_t s o = true -> inv_full_b (apply_op_t s o) = true.
+Proof. exact inv_full_t_preserved. Qed.
+
+Theorem C09_tree_reachable_inv_full :
+  forall cap ops, protocol_ok_run_t (init_st cap) ops = true ->
+                  all_prefixes_ok_t inv_full_b (init_st cap) ops = true.
+Proof. exact reachable_inv_full_t. Qed.
 
 (* Finding D33 (open): a full recycle revives a detached static tree without the ownership checks of
    register_static_tree.  A registers the tree d/; the rerun of the plan detaches A and the tree;
